@@ -139,7 +139,7 @@ PROPS = {
         rule=HIST_RULE + "; a light client (Stump + Proof + hashes) is updated with Proof.Update from block data and UpdateData only; "
              "remember pattern per history in {none, all, last only, random}; after every block the oracle checks hashes = expected "
              "set ordered by position, targets = true positions, proof = canonical hashes, and Verify accepts",
-        strength="P: C07_update_addition_blocks - the mirror of Proof.Update computes EXACTLY the expected cached proof for every addition-only block (any forest incl. empty roots written over and row growth, any cached set, any remember pattern, <= 2^63 leaves) and for every block with REGULAR deletions followed by any additions (C07_update_regular_deletion_blocks: any number of deleted leaves as long as no inner node loses all its leaves; survivors and proof positions move up); the full statement incl. whole-subtree deletions decided by kernel computation on all 19,375 cases of 4 slots (C07_update_all_blocks_4_slots; its proof is open); set algebra of the cached leaves (abstract); the expected cached proof of any live set exists, is the canonical proof of its leaves and is accepted by the Verify mirror (C07_expected_cached_is_canonical/_exists/_verifies, <= 2^63 leaves); V: Proof.Update output = that expected cached proof, for two clients sharing block data",
+        strength="P: C07_light_client_every_history - a whole light client (mirror of Stump.Update + mirror of Proof.Update, block data only) after EVERY valid history holds exactly previous-leaves-minus-deleted-plus-remembered with true positions and canonical proof hashes, its stump is the reference stump and Verify accepts (<= 2^63 leaves, any hash with never-empty hash2, barring collisions: cblock_ok); C07_update_every_block: per block the mirror of Proof.Update computes EXACTLY the expected cached proof, whole subtrees/trees deleted included; C07_update_addition_blocks: for every addition-only block (any forest incl. empty roots written over and row growth, any cached set, any remember pattern, <= 2^63 leaves) and for every block with REGULAR deletions followed by any additions (C07_update_regular_deletion_blocks: any number of deleted leaves as long as no inner node loses all its leaves; survivors and proof positions move up); the full statement incl. whole-subtree deletions decided by kernel computation on all 19,375 cases of 4 slots (C07_update_all_blocks_4_slots; its proof is open); set algebra of the cached leaves (abstract); the expected cached proof of any live set exists, is the canonical proof of its leaves and is accepted by the Verify mirror (C07_expected_cached_is_canonical/_exists/_verifies, <= 2^63 leaves); V: Proof.Update output = that expected cached proof, for two clients sharing block data",
         level_text="The leaf set a client must hold after a block is a Coq theorem on the abstract model; the canonical cached proof of "
                    "that set is computed by the extracted reference and compared with what Proof.Update produced, after every block.",
         technique="Coq abstract model + extracted-oracle correspondence (light client along histories)",
